@@ -17,7 +17,7 @@ PROPS = {
         "monitors": ["exactly_once", "height_order", "size_bound", "refusal_justified",
                      "filter_only_drops_data", "decode_roundtrip"],
         "scope_regex": r"^batch ",
-        "nontrivial_regex": r"^batch (recv .* => (ok|full|err:oversized)|take => sub )",
+        "nontrivial_regex": r"^batch (recv .* => (ok|full|err:oversized)|take => sub |e2e-sub \d+ => nblobs)",
         "thorough_seeds": 3,
         "search_seeds": 2,
         "rule": "in-crate harness (child module of relayer::write) drives a real BlobSubmitter: the real has_capacity / "
@@ -30,7 +30,11 @@ PROPS = {
                 "id), random interleaving of take / done / dropped-unpolled take; sessions of incompressible 1/2, 1/3, 1/4-limit blocks so "
                 "that 1, 2 or 3 blocks straddle MAX_PAYLOAD_SIZE_BYTES; a 9-block 110 KB session; a single block > limit on an empty batch "
                 "and as the pending block (hard error both times); 1.5 MB compressible + 1.2 MB filtered data (fits); calibrated payloads "
-                "of EXACTLY 1 000 000 bytes and the next size above, for one block and for two blocks. Every produced blob is decoded "
+                "of EXACTLY 1 000 000 bytes and the next size above, for one block and for two blocks. In addition 2 (thorough 4 per seed) "
+                "END-TO-END sessions run the real async BlobSubmitter::run select loop against an in-process Celestia gRPC mock that "
+                "confirms one BlobTx at a time: bursts of 0.96*limit/k-byte blocks arrive while a submission is in flight (real Full -> "
+                "pending_block -> hand-over after the take, real has_capacity guard), one block repeats an already submitted height "
+                "(real skip); the BlobTx blobs captured by the mock are diffed with the model driven by the same events. Every produced blob is decoded "
                 "conductor-style (decompress, prost decode of the list, try_from_raw) and compared per block with split_for_celestia of the "
                 "source block. Each line is replayed through the Lean model (the candidate's real compressed size is the model's csize "
                 "oracle). non-trivial = a block handed to try_add (accepted / pending / oversized) or an emitted submission; distinct = "
@@ -43,9 +47,12 @@ PROPS = {
         "assumptions": ["compression is a parameter: csize is an arbitrary function of the blob list (none = compression/blob error), no "
                         "monotonicity; the driver instantiates it per step with the size measured by the harness",
                         "the three data arms of BlobSubmitter::run (capacity guard + already-submitted skip, pending_block hand-over after "
-                        "a take, advance of last_submission_sequencer_height on completion) are modelled as atomic steps and REPLICATED in "
-                        "the harness around the real functions; the async select loop itself, the Celestia client and the retry logic are "
-                        "not executed (C11 covers submission state)",
+                        "a take, advance of last_submission_sequencer_height on completion) are modelled as atomic steps. In the step-by-step "
+                        "sessions they are REPLICATED in the harness around the real functions; in the end-to-end sessions the real select "
+                        "loop runs (Celestia app mocked in-process, every request succeeds) and the driver schedules the model's arms in the "
+                        "loop's biased order. Submission retries, timeouts, shutdown and crash recovery are not exercised here (C11)",
+                        "size oracle of the end-to-end sessions = sum of the blocks' stand-alone compressed sizes (the loop does not expose "
+                        "candidate sizes); those sessions keep every fits/does-not-fit decision >= 3% away from the limit",
                         "the relayer crate cannot depend on astria-conductor: conductor's convert.rs decode steps are replicated in the "
                         "harness with the same astria-core functions (decompress_bytes, SubmittedMetadataList/SubmittedRollupDataList::decode, "
                         "try_from_raw); namespace selection of blobs is by position (first blob = metadata list) and namespace equality",
@@ -74,7 +81,8 @@ TEXT = {
                 "result and every submission dump with the model, decodes every blob like conductor and compares with the source block.",
         "design_ref": "DESIGN.md §6 C12",
         "note": "Trusted: Lean kernel (+propext, Quot.sound), hand-written model, harness/driver, brotli/prost/celestia-types. The async "
-                "select loop of BlobSubmitter::run is modelled and its three data arms are replicated in the harness, not executed.",
+                "select loop of BlobSubmitter::run is modelled as atomic arms; it is executed for real only in the scripted end-to-end "
+                "sessions (mocked Celestia app, no failures injected).",
         "technique": "Lean 4 proof (invariant by induction over loop events, size function abstract) + differential correspondence on "
                      "the real batching code + conductor-style decode comparison",
     },
